@@ -11,7 +11,7 @@ RULE = ("function-level ops on the real parse_check_line / filepath_to_string / 
         "single-character mutation (delete, duplicate, replace/insert by ~40 characters incl. 2-, 3-, 4-byte ones, NUL, U+FFFD) at every "
         "position of 23 valid lines of both forms, width-preserving multi-byte substitutions in the hash field, random paths weighted "
         "toward spaces, double spaces, ') = ', 'BLAKE3 (', backslash, CR, LF, invalid UTF-8; format-then-parse round trips (P rt) in both "
-        "forms and both line endings; 44 process-level --check runs over lines of 3 KiB .. 64 KiB (one physical line is one entry). Oracle: a parse never panics; P rt of a representable path returns exactly that path and hash. "
+        "forms and both line endings; 44 process-level --check runs over lines of 3 KiB .. 64 KiB (one physical line is one entry) and 120 printing runs incl. failing inputs between good ones. Oracle: a parse never panics; P rt of a representable path returns exactly that path and hash. "
         "non-trivial = line differs from the 23 base lines; distinct = distinct op line")
 ASSUMPTIONS = ["OsStr::to_string_lossy follows std's Utf8Chunks (modelled in B3/B3sum/Model.lean, checked by correspondence)",
                "printing is modelled from hash_one_input's print statements; the real binary's stdout is compared in C12"]
@@ -51,7 +51,9 @@ def stages(tier, seed, witness_search=False):
     lines = b3sum_gen.lines_for_c13(rng, n)
     scripts = [Script([l], tags=(" ".join(l.split(" ")[:2]),)) for l in lines]
     from .c12 import ProcStage
-    long_lines = ProcStage(b3sum_gen.long_line_check_cases(rng), extras=False)
+    # plus printing runs (names that need escaping, --tag, inputs that fail to hash in between): every printed line is a complete,
+    # parseable entry for exactly one input
+    long_lines = ProcStage(b3sum_gen.long_line_check_cases(rng) + [b3sum_gen.hash_case(rng) for _ in range(120 if tier == "quick" else 2000)], extras=False)
     long_lines.name = "process-long-lines"
     return [LineStage("parse-format", scripts, impl="b3sum", oracle=oracle), long_lines]
 
